@@ -38,6 +38,8 @@ pub const TYPES: &[TypeMap] = &[
     TypeMap { rust: "SemverErrorKind", lean: "Semver.EKind" },
     TypeMap { rust: "Extras", lean: "Semver.Gen.Extras" },
     TypeMap { rust: "char", lean: "Char" },
+    // `Self::Err` of the two `FromStr` impls
+    TypeMap { rust: "Err", lean: "Semver.SemverError" },
     // the type parameter of `SemverParseError<I>`: the crate only instantiates it with `&str`
     TypeMap { rust: "I", lean: "(List Char)" },
 ];
@@ -123,6 +125,8 @@ pub enum Item {
     Closure { func: &'static str, idx: usize, lean: &'static str, captures: &'static [&'static str], params: &'static [&'static str], ret: &'static str },
     /// a `const`
     Const { name: &'static str },
+    /// a function that is not modelled but whose body has to stay the given text (serde glue)
+    CanonicalBody { ty: &'static str, tr: &'static str, name: &'static str, body: &'static str },
     /// an enum of the crate without counterpart in the model: the inductive type is generated
     GenType { name: &'static str },
     /// a winnow parser: `fn name(input: &mut &str) -> PResult<T, _>`
@@ -241,9 +245,16 @@ pub const ITEMS: &[Item] = &[
     Parser { name: "bound_sets" },
     Closure { func: "range_set", idx: 0, lean: "Semver.Gen.range_set_check", captures: &["input"], params: &["(List Char)", "(List Semver.BoundSet)"], ret: "(Except Semver.PErr Semver.Range)" },
     Parser { name: "range_set" },
+    // ---- serde: `serialize` writes what Display writes, `deserialize` parses an owned string
+    CanonicalBody { ty: "Version", tr: "Serialize", name: "serialize", body: "{s.collect_str(self)}" },
+    CanonicalBody { ty: "Version", tr: "Deserialize<'de>", name: "deserialize", body: "{lets=String::deserialize(d)?;s.parse().map_err(serde::de::Error::custom)}" },
+    CanonicalBody { ty: "Range", tr: "Serialize", name: "serialize", body: "{s.collect_str(self)}" },
+    CanonicalBody { ty: "Range", tr: "Deserialize<'de>", name: "deserialize", body: "{lets=String::deserialize(d)?;s.parse().map_err(serde::de::Error::custom)}" },
     // ---- the public entry points
     Method { ty: "Version", tr: "", name: "parse" },
     Method { ty: "Range", tr: "", name: "parse" },
+    Method { ty: "Version", tr: "FromStr", name: "from_str" },
+    Method { ty: "Range", tr: "FromStr", name: "from_str" },
 ];
 
 /// functions of the crate that are deliberately not translated: they are tied to the model by the
@@ -255,7 +266,46 @@ pub const BY_CORRESPONDENCE_ONLY: &[&str] = &[
     "SemverError::source_code", "SemverError::labels", "SemverError::input", "SemverError::span",
     "SemverError::offset", "SemverError::kind", "SemverError::location",
     // entry points that wrap the winnow parsers, serde, FromStr
-    "Version::serialize", "Version::deserialize", "Version::from_str", "Version::partial_cmp",
-    "Range::serialize", "Range::deserialize", "Range::from_str", "Bound::partial_cmp",
+    "Version::partial_cmp",
+    "Bound::partial_cmp",
     "Operation::fmt",
 ];
+
+/// names to which the translation gives the meaning of `std` / `winnow`: the crate must not define items of these
+/// names, and where it imports them it must import them from the expected path
+pub const FIXED_NAMES: &[&str] = &[
+    "Some", "None", "Ok", "Err", "Option", "Result", "Vec", "Box", "String", "Ordering", "Ord", "PartialOrd", "PartialEq",
+    "Eq", "Hash", "Default", "max", "min", "alt", "opt", "peek", "preceded", "terminated", "delimited", "separated",
+    "repeat_till", "take_while", "literal", "digit1", "space0", "space1", "eof", "any", "Parser", "PResult", "ErrMode",
+    "vec", "write", "unreachable", "panic", "debug_assert", "assert", "matches", "format", "todo", "unimplemented",
+];
+
+pub const EXPECTED_IMPORTS: &[(&str, &str)] = &[
+    ("Ordering", "std::cmp::Ordering"),
+    ("Ord", "std::cmp::Ord"),
+    ("PartialOrd", "std::cmp::PartialOrd"),
+    ("cmp", "std::cmp"),
+    ("fmt", "std::fmt"),
+    ("ParseIntError", "std::num::ParseIntError"),
+    ("digit1", "winnow::ascii::digit1"),
+    ("space0", "winnow::ascii::space0"),
+    ("space1", "winnow::ascii::space1"),
+    ("alt", "winnow::combinator::alt"),
+    ("delimited", "winnow::combinator::delimited"),
+    ("eof", "winnow::combinator::eof"),
+    ("opt", "winnow::combinator::opt"),
+    ("peek", "winnow::combinator::peek"),
+    ("preceded", "winnow::combinator::preceded"),
+    ("repeat_till", "winnow::combinator::repeat_till"),
+    ("separated", "winnow::combinator::separated"),
+    ("terminated", "winnow::combinator::terminated"),
+    ("ErrMode", "winnow::error::ErrMode"),
+    ("any", "winnow::token::any"),
+    ("literal", "winnow::token::literal"),
+    ("take_while", "winnow::token::take_while"),
+    ("PResult", "winnow::PResult"),
+    ("Parser", "winnow::Parser"),
+];
+
+/// glob imports at module level that are there today
+pub const KNOWN_GLOBS: &[&str] = &["range::*"];
